@@ -14,8 +14,9 @@ Assign3 == { [c \in {"c1","c2","c3"} |-> "x1"],
              ("c1" :> "x1" @@ "c2" :> "x2" @@ "c3" :> "x1"),
              ("c1" :> "x1" @@ "c2" :> "x2" @@ "c3" :> "x2"),
              ("c1" :> "x1" @@ "c2" :> "x2" @@ "c3" :> "x3") }
-SimCtxAssigns == IF Cardinality(Callers) = 2 THEN Assign2
-                 ELSE IF Cardinality(Callers) = 3 THEN Assign3 ELSE [Callers -> Ctxs]
+SimCtxAssigns == IF Cardinality(Callers) = 2 /\ {"x1", "x2"} \subseteq Ctxs THEN Assign2
+                 ELSE IF Cardinality(Callers) = 3 /\ {"x1", "x2", "x3"} \subseteq Ctxs THEN Assign3
+                 ELSE [Callers -> Ctxs]
 SimComboAssigns == IF Multi THEN [Callers -> Combos] ELSE { [c \in Callers |-> "one"] }
 
 SimInit == Init /\ h = <<>>
